@@ -213,6 +213,49 @@ func runC11(r *Run) {
 		r.Bad("R1", "anchor/Redeem", "", "liquidvesting Keeper.Redeem not found")
 	}
 
+	// the denom store records exactly the schedule it is handed
+	r.Rule("R3", "FLOW.schedule-stored-unmodified: UpdateDenomPeriods stores its periods parameter itself into Denom.LockupPeriods and then SetDenom; CreateDenom stores its periods parameter itself and an EndTime derived from start + periods.TotalLength()")
+	if fn, ok := P.FnOK("(" + lk + ".Keeper).UpdateDenomPeriods"); ok {
+		okSt, n := true, 0
+		eachInstr(fn, func(in ssa.Instruction) {
+			st, ok := in.(*ssa.Store)
+			if !ok {
+				return
+			}
+			if sn, f, ok := fieldOfAddr(st.Addr); ok && sn == "Denom" && f == "LockupPeriods" {
+				n++
+				if !isParam(st.Val, "newPeriods") {
+					okSt = false
+				}
+			}
+		})
+		r.Check(okSt && n == 1, "R3", fnID(fn)+"#stores-parameter", P.Pos(fnPos(fn)), "Denom.LockupPeriods := newPeriods", "UpdateDenomPeriods stores something other than the periods it was given (period lengths are relative: dropping or rewriting entries shifts every later release)")
+		isSetD := isCallMatching(func(ci CallInfo) bool { return ci.Name == "SetDenom" })
+		w := Precedes(fn, isSetD, isSuccessExit, nil)
+		r.Check(w == nil, "R3", fnID(fn)+"#persists", P.Pos(fnPos(fn)), "SetDenom on every success path", "UpdateDenomPeriods can succeed without storing the denom", P.witness(w)...)
+	} else {
+		r.Bad("R3", "anchor/UpdateDenomPeriods", "", "not found")
+	}
+	if fn, ok := P.FnOK("(" + lk + ".Keeper).CreateDenom"); ok {
+		okP, okE := false, false
+		eachInstr(fn, func(in ssa.Instruction) {
+			st, ok := in.(*ssa.Store)
+			if !ok {
+				return
+			}
+			if sn, f, ok := fieldOfAddr(st.Addr); ok && sn == "Denom" {
+				if f == "LockupPeriods" && isParam(st.Val, "periods") {
+					okP = true
+				}
+				if f == "EndTime" {
+					s := backSlice(st.Val)
+					okE = s.HasParam("startTime") && s.HasCall(func(g CallInfo) bool { return g.Name == "TotalLength" })
+				}
+			}
+		})
+		r.Check(okP && okE, "R3", fnID(fn)+"#stores-parameter", P.Pos(fnPos(fn)), "LockupPeriods := periods; EndTime := start + TotalLength", "CreateDenom does not store the periods it was given unmodified, or its EndTime is not start + periods.TotalLength()")
+	}
+
 	// ---------- R2 ----------
 	checkMintBurnOwnership(r, "R2", modName, map[string]string{
 		"(" + lk + ".Keeper).Liquidate": "mint liquid tokens for escrowed coins",
